@@ -266,7 +266,7 @@ def run(module, cfg, *, workers=None, env=None, simulate=None, depth=None, seed=
     if rc == -9:
         hard = "timeout"
     elif re.search(r"(Parsing or semantic analysis failed|\*\*\* Errors:|Error: TLC threw an unexpected exception"
-                   r"|Error: Evaluating|TLC encountered|java\.lang\.\w+Error|Error: The .* is not|was not found)", out):
+                   r"|Error: Evaluating|Error: The error occurred|Error: Overflow|TLC encountered|java\.lang\.\w+Error|Error: The .* is not|was not found)", out):
         if not r.invariant_violated:
             hard = "tlc-error"
     elif rc != 0 and not r.invariant_violated and not finished:
